@@ -62,12 +62,16 @@ def _guarded(guards, val_txt):
     return False
 
 
-def run(repo, res, rid, floor=6):
+def run(repo, res, rid, floor=6, scope=None):
+    from .common import in_scope
+
     n_sinks = 0
     for mod in MODULES:
         if mod not in repo.mods:
             continue
         for q, f in repo.mods[mod].funcs.items():
+            if not in_scope(scope, mod, q):
+                continue
             nodes = list(own_nodes(f))
             # nullable arrays of this function
             arrays = set()
